@@ -248,7 +248,51 @@ class Termizer:
                 else:
                     self.env[pid] = old
 
+    def _fold_fixed_array(self, n):
+        """`a.iter().fold(init, |acc, &x| body)` over an array of a small fixed length: the unrolled expression"""
+        F = self.F
+        if not (n.get("k") == "MethodCall" and n["name"] == "fold" and len(n.get("args", [])) == 2 and n["args"][1].get("k") == "Closure"):
+            return None
+        src = n["recv"]
+        while src.get("k") == "MethodCall" and src["name"] in ("iter", "into_iter", "copied", "cloned") and not src.get("args"):
+            src = src["recv"]
+        m = re.match(r"^&*\[.+; (\d+)\]$", (F.ty(src) or "").strip())
+        if not m or not 1 <= int(m.group(1)) <= 4:
+            return None
+        cl = n["args"][1]
+        ps = cl.get("params", [])
+        if len(ps) != 2 or ps[0].get("k") != "PBind":
+            return None
+        ep = ps[1]
+        while ep.get("k") == "PRef":
+            ep = ep["p"]
+        if ep.get("k") != "PBind" or self._cdepth >= 3:
+            return None
+        base = self.term(src)
+        acc = self.term(n["args"][0])
+        saved = {pid: self.env.get(pid) for pid in (ps[0]["id"], ep["id"])}
+        self._cdepth += 1
+        try:
+            for i in range(int(m.group(1))):
+                self.env[ps[0]["id"]] = acc
+                self.env[ep["id"]] = base[1 + i] if base[0] == "arr" and len(base) - 1 == int(m.group(1)) else ("index", base, ("int", i))
+                acc = self._closure_body_term(cl["body"])
+                if acc is None:
+                    return None
+        finally:
+            self._cdepth -= 1
+            for pid, old in saved.items():
+                if old is None:
+                    self.env.pop(pid, None)
+                else:
+                    self.env[pid] = old
+        return acc
+
     def mk_call(self, cn, args, n):
+        if n is not None and n.get("k") == "MethodCall" and n.get("name") == "fold":
+            t_ = self._fold_fixed_array(n)
+            if t_ is not None:
+                return t_
         # transparent conversions
         if cn in ("Borrow::borrow", "Deref::deref", "Clone::clone", "Into::into", "From::from",
                   "DerefMut::deref_mut", "BorrowMut::borrow_mut", "Option::copied", "CastableInto::cast",
@@ -301,6 +345,11 @@ def mk_op(op, l, r):
             if b_[0] == "op" and b_[1] == "-" and len(b_) == 4 and _pow2_def(b_[2]) and b_[3] == ("int", 1):
                 return mk_op("%", a_, b_[2])
 
+    if op == "^":
+        # `x ^ 0` is x (the start value of a fold)
+        for a_, b_ in ((l, r), (r, l)):
+            if b_ == ("int", 0) or b_ == ZERO or (b_[0] == "def" and b_[1].endswith("Number::ZERO")):
+                return a_
     if op == "*":
         # `x * (1 << k)` is `x << k`
         for a_, b_ in ((l, r), (r, l)):
